@@ -1,10 +1,11 @@
 from vlib.core import Check, Family
 from vlib.c08 import lockgraph_step
+from vlib.genidx import genidx_step   # tie A: the index / hyperslab / util-fn functions regenerated as Lean and proved equal to the hand-written model (gen_eq_*, OW/Props/GenTieIndex.lean; table TIES in vlib/genidx.py)
 
 CHECK = Check(
     "C08",
     props_modules=["OW.Props.C08"],
-    pre_steps=[lockgraph_step],
+    pre_steps=[lockgraph_step, genidx_step],
     families=[
         Family("H5U"),   # sliceSize / makeHyperslab through io/verif_export.go, exact integer comparison
         Family("H5"),    # programs of Create / Write / WriteSlice / Load(selection) / Exists … on the real package io
